@@ -13,8 +13,8 @@ Models (Python, /repo/openpectus/engine/command_manager.py):
 * `_execute_uod_command`: cancel the other executing requests of the same name, create or fetch the instance
   *by name* (`uod.command_instances`), a cancelled instance is finalized with the *current* request and not
   executed, `initialize`/`execute` each tick until `set_complete`, then `finalize` (dispose) and request done.
-* `_cancel_command` / `cancel_commands` for UOD requests incl. the swallowed ValueError of
-  `tracking.mark_cancelled` for user requests (their null node is not cancellable), which skips `finalize`.
+* `_cancel_command` / `cancel_commands` for UOD requests as of /repo 1eb29326: cancel + always finalize the
+  instance of that name; drop a request that has not started yet.
 * `uod.command_instances` survive the replacement of the CommandManager at Stop/Restart, requests do not.
 
 Abstractions / limits:
@@ -52,8 +52,6 @@ structure UMgr where
   queue : List UReq := []
   exec : List UReq := []
   done : List Nat := []
-  /-- ids of method requests whose program node has `_cancelled = True` (a second `node.cancel()` fails) -/
-  nodeCancelled : List Nat := []
 deriving Repr
 
 structure OState where
@@ -83,24 +81,16 @@ def dispose (o : OState) (k : Nat) : OState := { o with uinst := eraseI k o.uins
 
 end OState
 
-/-- does `tracking.mark_cancelled(request)` return normally for a UOD request: skipped while tracking is
-    disabled; otherwise the node must be cancellable — a user request's null node never is, a method node
-    once -/
-def markCancelOkU (o : OState) (u : UReq) : Bool :=
-  !o.base.mgr.tracking || (!u.user && u.tracked && !o.um.nodeCancelled.contains u.id)
-
-/-- `node.cancel()` succeeded -/
-def noteCancelled (o : OState) (u : UReq) : OState :=
-  if o.base.mgr.tracking then { o with um := { o.um with nodeCancelled := u.id :: o.um.nodeCancelled } } else o
-
-/-- `_cancel_command(request, finalize=True)` for a UOD request -/
+/-- `_cancel_command(request, finalize=True)` for a UOD request (as of /repo 1eb29326): the instance of that
+    name, if any, is cancelled and always finalized (`_mark_uod_cancelled` records the cancellation even when
+    the node refuses it); a request that has not started yet (no instance, not done) is dropped.
+    The one case in which the tracking mark still raises — instance id unknown to an enabled tracking — is
+    outside the model's scope (`scopeViolation`). -/
 def cancelU (o : OState) (u : UReq) : OState :=
+  let o1 := if o.base.mgr.tracking && !u.tracked then { o with scopeViolation := true } else o
   match lookupI u.cmd o.uinst with
-  | none => o
-  | some i =>
-    if i.complete then (o.dispose u.cmd).markDone u
-    else if markCancelOkU o u then ((noteCancelled o u).dispose u.cmd).markDone u
-    else { o with uinst := setI u.cmd { i with cancelled := true } o.uinst }
+  | some _ => (o1.dispose u.cmd).markDone u
+  | none => if o.um.done.contains u.id then o else o1.markDone u
 
 /-- the UOD part of `cancel_commands` (Stop / Restart): every request of the list, done or not -/
 def cancelUAll (o : OState) : OState :=
